@@ -178,7 +178,8 @@ def make_run(focus, seed):
     plan = []
     ptr = [None]
     n_faults = [0]
-    enum_done = [False]
+    # fault enumeration is expensive (a few hundred forks): one sweep in about one run in fifteen
+    enum_done = [not (focus == 'C06' and mode == 'inject' and rng.random() < 0.11)]
     hints = []
     last_c = [None]
 
@@ -275,7 +276,7 @@ def make_run(focus, seed):
         step['inputs'] = ins
         step['fault'] = None if poison else maybe_fault('fwd')
         if (focus == 'C06' and mode == 'inject' and not poison and not feedback and step['fault'] is None
-                and not enum_done[0] and c.have_fwd and rng.random() < 0.03):
+                and not enum_done[0] and c.have_fwd and rng.random() < 0.2):
             # systematic: a forward evaluation at other inputs (another kind/D/P) interrupted at every
             # source line of its kernels in turn, each time followed by this evaluation
             if rng.random() < 0.3:
@@ -302,7 +303,7 @@ def make_run(focus, seed):
                 'reuse_seed': (not bad) and rng.random() < 0.5,
                 'fault': None if bad else maybe_fault('rev')}
         if (focus == 'C06' and mode == 'inject' and not bad and step['fault'] is None and not enum_done[0]
-                and rng.random() < 0.04):
+                and rng.random() < 0.3):
             # once in a while a systematic sweep over *all* interrupt points of one reverse sweep
             step['enum'] = {'subseed': rng.randrange(1 << 30), 'cap': 400}
             step['reuse_seed'] = False
